@@ -11,7 +11,7 @@
     checked against the built binary on generated trees by the check itself. *)
 From Coq Require Import Permutation.
 From GFS Require Import Base Pipeline PipelineProofs.
-From GFS Require Pad Seq Path Listing SpecListing Seqls WalkLts WalkFn GenWalkFn DiskProofs WalkProofs WalkSched WalkFnProofs SeqlsCover.
+From GFS Require Pad Seq Path Listing SpecListing Seqls WalkLts WalkFn GenWalkFn OnDirEnt GenOnDirEnt DiskProofs WalkProofs WalkSched WalkFnProofs OnDirEntProofs SeqlsCover ArgsProofs.
 From GFS Require Fastwalk GenFastwalk FastwalkProofs.
 
 Section C17.
@@ -229,6 +229,88 @@ Print Assumptions every_schedule_terminates.
 Print Assumptions nested_links_listing_depends_on_the_schedule_refuted.
 Print Assumptions seqls_r_prints_exactly_the_selected_files.
 Print Assumptions seqls_r_s_prints_exactly_the_numbered_files.
+
+(** ---- the arguments: a bad argument (an unmatched or unparsable pattern, an existing file) never
+    suppresses or alters what is listed for the others (Proofs/ArgsProofs.v) ---- *)
+Import ArgsProofs.
+
+Theorem bad_argument_leaves_the_directory_jobs_alone : forall f t args1 bad args2,
+  ~ is_dir_arg t bad ->
+  snd (jobs_of f t (args1 ++ bad :: args2)) = snd (jobs_of f t (args1 ++ args2)).
+Proof. exact bad_argument_keeps_directory_jobs. Qed.
+
+Theorem bad_argument_only_adds_its_own_lines : forall f cwd t args1 bad args2,
+  sf_abs f = false -> ~ is_dir_arg t bad -> args1 ++ args2 <> [] ->
+  Permutation (seqls_lines f cwd t (args1 ++ bad :: args2))
+              (seqls_lines f cwd t (args1 ++ args2) ++
+               if dup_arg bad (args1 ++ args2) then []
+               else match classify_arg t (path_clean bad) with
+                    | APattern p => pattern_job_lines f t p
+                    | _ => []
+                    end).
+Proof. exact bad_argument_is_isolated_in_the_output. Qed.
+
+Theorem a_repeated_argument_is_listed_once : forall f t args a,
+  In (path_clean a) (map path_clean args) ->
+  jobs_of f t (args ++ [a]) = jobs_of f t args.
+Proof. exact duplicate_arguments_are_listed_once. Qed.
+
+Print Assumptions bad_argument_leaves_the_directory_jobs_alone.
+Print Assumptions bad_argument_only_adds_its_own_lines.
+Print Assumptions a_repeated_argument_is_listed_once.
+
+(** ---- what fastwalk does with the callback's answer: onDirEnt and walk, TRANSLATED into decision
+    trees from fastwalk.go on every run (Gen/GenOnDirEnt.v) ---- *)
+Import OnDirEnt GenOnDirEnt OnDirEntProofs.
+
+(** every entry type x every answer: what is handed to the coordinator, whether the callback ran,
+    what comes back *)
+Theorem fastwalk_acts_on_each_entry_as_modelled : forall typ ans,
+  run_tree ondirent_tree typ true ans =
+  match typ with
+  | TDir => mkOR 0 [false] RetNil
+  | TSymlink =>
+    match ans with
+    | CTraverse => mkOR 1 [true] RetNil
+    | CSkipDir => mkOR 1 [] RetNil
+    | CNil => mkOR 1 [] RetNil
+    | e => mkOR 1 [] (RetErr e)
+    end
+  | TOther =>
+    match ans with
+    | CNil => mkOR 1 [] RetNil
+    | e => mkOR 1 [] (RetErr e)
+    end
+  end.
+Proof. exact ondirent_decides. Qed.
+
+(** a link is read as a directory exactly when the walk model traverses it *)
+Theorem a_link_is_handed_over_iff_the_model_traverses_it : forall a,
+  r_enq (run_tree ondirent_tree TSymlink true (cbans_of a)) = (if traverses TSymlink a then [true] else []).
+Proof. exact ondirent_enqueues_iff_traverses. Qed.
+
+(** SkipDir / TraverseLink answered for a link can never abort the walk of the other directories *)
+Theorem control_answers_never_abort_the_walk : forall a,
+  r_ret (run_tree ondirent_tree TSymlink true (cbans_of a)) <> RetErr CSkipDir /\
+  r_ret (run_tree ondirent_tree TSymlink true (cbans_of a)) <> RetErr CTraverse.
+Proof. exact ondirent_never_leaks_control_answers. Qed.
+
+(** a directory is read exactly when its callback does not answer SkipDir; a link announced by
+    onDirEnt is read without a second callback *)
+Theorem a_directory_is_read_unless_skipped : forall ans,
+  run_tree walk_tree TDir true ans =
+  match ans with
+  | CNil => mkOR 1 [] RetReadDir
+  | CSkipDir => mkOR 1 [] RetNil
+  | e => mkOR 1 [] (RetErr e)
+  end /\
+  run_tree walk_tree TDir false ans = mkOR 0 [] RetReadDir.
+Proof. exact walk_decides. Qed.
+
+Print Assumptions fastwalk_acts_on_each_entry_as_modelled.
+Print Assumptions a_link_is_handed_over_iff_the_model_traverses_it.
+Print Assumptions control_answers_never_abort_the_walk.
+Print Assumptions a_directory_is_read_unless_skipped.
 
 (** ---- fastwalk.Walk: the termination-detection protocol of the concurrent directory walker ----
     The coordinator's select loop is TRANSLATED from cmd/seqls/internal/fastwalk/fastwalk.go on every
